@@ -996,7 +996,8 @@ where
     let mut rng = Prng::new(cfg.seed, &format!("c16f-{}-{}", B::NAME, purpose));
     let kms = key_mats::<B, P>(rec, &mut rng, 1);
     let km = &kms[0];
-    let n = if cfg.thorough { 20000 } else { 600 };
+    // (the trace validator carries the set of values seen so far in every state: its cost grows with the square of n)
+    let n = if cfg.thorough { 4000 } else { 600 };
     let claims = b"{\"same\":\"message\"}".to_vec();
     rec.emit(json!({"ev":"Reset","scenario":format!("fresh-{}-{}", B::NAME, purpose)}));
     for _ in 0..n {
